@@ -177,10 +177,14 @@ def check(chk):
     fk = meta.func('Token.from_key')
     chk.judge(ok and 'return cls(cls.hash_fn(key))' in src(fk), 'C08.token', bcls, 'BytesToken: the raw key bytes (Token.hash_fn is the identity)', 'BytesToken no longer uses the raw key')
     rb = meta.func('Metadata.rebuild_token_map')
+    from ..sem import flow_of, facts_true_at
     pairs = {}
-    for n in body_walk(rb):
-        if isinstance(n, ast.If) and isinstance(n.test, ast.Call) and src(n.test.func) == 'partitioner.endswith':
-            tc = [src(x.value) for x in n.body if isinstance(x, ast.Assign) and src(x.targets[0]) == 'token_class']
-            pairs[n.test.args[0].value] = tc[0] if tc else None
+    g_, fl_ = flow_of(rb)
+    for n in g_.stmt_nodes():
+        if n.kind == 'stmt' and isinstance(n.ast, ast.Assign) and src(n.ast.targets[0]) == 'token_class':
+            for k, v in facts_true_at(fl_, n).items():
+                e = ast.parse(k, mode='eval').body
+                if v and isinstance(e, ast.Call) and src(e.func) == 'partitioner.endswith' and isinstance(e.args[0], ast.Constant):
+                    pairs[e.args[0].value] = src(n.ast.value)
     chk.judge(pairs == ref.PARTITIONER_TOKEN, 'C08.token', rb, 'partitioner name -> token class table equals the reference', 'partitioner table is %s' % pairs)
     chk.require('C08.const', 8)
